@@ -3,16 +3,149 @@
 package sync
 
 import (
+	"fmt"
+	"sort"
 	realsync "sync"
 
 	rt "github.com/jimsnab/go-redisemu/verifrt"
 )
 
 type (
-	Locker  = realsync.Locker
-	Map     = realsync.Map
-	Pool    = realsync.Pool
+	Locker = realsync.Locker
 )
+
+// Pool: deterministic (the real one hands items out per P and drops them at random under the race
+// detector): Get returns the item that was Put last, so that every reuse the real pool CAN produce
+// between two scheduling points is the one that happens - an item that is still in use when it is
+// put back is handed to the next caller. Get and Put are scheduling points on the pool.
+type Pool struct {
+	New   func() any
+	items []any
+}
+
+//go:norace
+func (p *Pool) Get() any {
+	rt.Point(rt.OpAtomic, p, nil)
+	rt.RaceRW(p)
+	if n := len(p.items); n > 0 {
+		x := p.items[n-1]
+		p.items = p.items[:n-1]
+		return x
+	}
+	if p.New != nil {
+		return p.New()
+	}
+	return nil
+}
+
+//go:norace
+func (p *Pool) Put(x any) {
+	if x == nil {
+		return
+	}
+	rt.Point(rt.OpAtomic, p, nil)
+	rt.RaceRW(p)
+	p.items = append(p.items, x)
+}
+
+// Map: a plain map whose operations are scheduling points on the map (the real one synchronises
+// internally, invisibly to the scheduler).
+type Map struct {
+	m map[any]any
+}
+
+//go:norace
+func (m *Map) pt(read bool) {
+	if read {
+		rt.Point(rt.OpAtomic, rt.ReadOnly(m), nil)
+	} else {
+		rt.Point(rt.OpAtomic, m, nil)
+	}
+	rt.RaceRW(m)
+	if m.m == nil {
+		m.m = map[any]any{}
+	}
+}
+
+//go:norace
+func (m *Map) Load(k any) (any, bool) { m.pt(true); v, ok := m.m[k]; return v, ok }
+
+//go:norace
+func (m *Map) Store(k, v any) { m.pt(false); m.m[k] = v }
+
+//go:norace
+func (m *Map) Delete(k any) { m.pt(false); delete(m.m, k) }
+
+//go:norace
+func (m *Map) LoadOrStore(k, v any) (any, bool) {
+	m.pt(false)
+	if old, ok := m.m[k]; ok {
+		return old, true
+	}
+	m.m[k] = v
+	return v, false
+}
+
+//go:norace
+func (m *Map) LoadAndDelete(k any) (any, bool) {
+	m.pt(false)
+	v, ok := m.m[k]
+	delete(m.m, k)
+	return v, ok
+}
+
+//go:norace
+func (m *Map) Swap(k, v any) (any, bool) {
+	m.pt(false)
+	old, ok := m.m[k]
+	m.m[k] = v
+	return old, ok
+}
+
+//go:norace
+func (m *Map) CompareAndSwap(k, old, new any) bool {
+	m.pt(false)
+	if cur, ok := m.m[k]; ok && cur == old {
+		m.m[k] = new
+		return true
+	}
+	return false
+}
+
+//go:norace
+func (m *Map) CompareAndDelete(k, old any) bool {
+	m.pt(false)
+	if cur, ok := m.m[k]; ok && cur == old {
+		delete(m.m, k)
+		return true
+	}
+	return false
+}
+
+// Range visits a snapshot of the entries in insertion-independent (sorted by formatted key) order:
+// deterministic, which the real one is not.
+//
+//go:norace
+func (m *Map) Range(f func(k, v any) bool) {
+	m.pt(true)
+	type kv struct {
+		k, v any
+		s    string
+	}
+	var all []kv
+	for k, v := range m.m {
+		all = append(all, kv{k, v, fmt.Sprint(k)})
+	}
+	sort.Slice(all, func(i, j int) bool { return all[i].s < all[j].s })
+	for _, e := range all {
+		if !f(e.k, e.v) {
+			return
+		}
+	}
+}
+
+//go:norace
+func (m *Map) Clear() { m.pt(false); m.m = map[any]any{} }
 
 type Mutex struct {
 	held bool
